@@ -612,6 +612,20 @@ func (x *explorer) evalOne(e *env, st *mstate, path []step, cd cand, nn *stateNo
 	r := x.r
 	e.clean(st)
 	b := e.build(st, cd, nn)
+	if d, nonce := nn.option(cd.P); d != 0 && !refValid(d, refWork(nonce, &nn.dh)) {
+		// a block whose proof of work does not hold is first preceded by a decoy arriving under the same hash: the same
+		// block claiming difficulty 1 (which every nonce meets). The decoy's contents do not hash to the hash it carries,
+		// so it must be refused, and having seen it must not change what the node answers to the block itself
+		// ("no block is accepted without paying its cost", whatever the node was offered before).
+		dec := *b
+		dec.Difficulty = 1
+		r.Count("acct_decoys_offered", 1)
+		if _, derr := e.apply(&dec); derr == nil {
+			x.violate("C12:acct:decoy-under-foreign-hash-accepted", "a copy of the block claiming difficulty 1 under the hash of the original was accepted", path, &cd, full)
+		} else {
+			r.Count("acct_decoys_refused:"+errReason(derr), 1)
+		}
+	}
 	tx, err := e.apply(b)
 	accepted = err == nil
 	r.Count("acct_candidates", 1)
